@@ -23,3 +23,12 @@ def is_be(r, v, k):
     for i in range(k):
         ok = ok and r[k - 1 - i] == byte_of(v, i)
     return ok
+
+
+def be_bytes(v, k):
+    """k-byte big-endian encoding of v mod 256**k"""
+    return bytes([byte_of(v, k - 1 - i) for i in range(k)])
+
+
+def le_bytes(v, k):
+    return bytes([byte_of(v, i) for i in range(k)])
